@@ -149,14 +149,14 @@ Proof. exact order_preserved_partial. Qed.
 Print Assumptions C01_order_preserved_partial.
 
 (* ---- order of the values of a multi-variable declaration (VarDecl.v) ----
-   full statement: the values of `local v1, .., vn = e1, .., em` are evaluated left to right, as Lua does.
-   False today, twice: the initializer of a variable dropped by dead code elimination is written before the
-   definitions of the kept ones (`local a, b = f(), g()` with b never read runs g first), and the
-   `_asgnret = call` statement of a trailing multiple-return call likewise (`local a, b, c = f(), two()` runs
-   two first).  Both are known findings replayed on every run. *)
-Theorem C01_vardecl_order_refuted : ~ vardecl_order_src_full vardecl_policy.
-Proof. exact vardecl_order_refuted. Qed.
-Print Assumptions C01_vardecl_order_refuted.
+   full strength: the values of `local v1, .., vn = e1, .., em` are evaluated left to right, as Lua does, in every
+   build mode, for every well-formed declaration.  True since /repo d685d37 and f54f9c0 (the bare initializer of a
+   variable dropped by dead code elimination and the `_asgnret = call` statement of a trailing multiple-return
+   call are written to `defemitter` like the definitions; the placement is scraped into Gen.vardecl_policy).  The two
+   former witnesses are still replayed on every run and must agree with Lua. *)
+Theorem C01_vardecl_order : vardecl_order_src_full vardecl_policy.
+Proof. exact vardecl_order_src. Qed.
+Print Assumptions C01_vardecl_order.
 
 (* for every placement of the two kinds of statements: source order exactly when both go to defemitter
    (the two proposed repairs) *)
@@ -165,7 +165,7 @@ Theorem C01_vardecl_order_iff_policy : forall pol,
 Proof. exact vd_src_iff. Qed.
 Print Assumptions C01_vardecl_order_iff_policy.
 
-(* what holds today, for every placement: every value is evaluated exactly once (the C order is a permutation
+(* for every placement (also the unrepaired ones): every value is evaluated exactly once (the C order is a permutation
    of the source order), and a declaration with at most one effectful value is in source order *)
 Theorem C01_vardecl_order_partial : forall pol nodce l,
   Permutation (vd_effects pol nodce l) (src_effects l) /\
